@@ -30,6 +30,21 @@ def runCase (xs : List Sx) : String :=
     match strict? st, ty? t, bytes? b with
     | some st, some t, some bs => showOut showVal (fromSlice st t bs)
     | _, _, _ => "bad-case parse"
+  | [.atom "rt", st, t, v] =>
+    match strict? st, ty? t, val? v with
+    | some st, some t, some v =>
+      if !HasTy t v then "bad-case ill-typed" else
+      match toVec t v with
+      | .ok bs => showOut showVal (fromSlice st t bs)
+      | .err e => "enc" ++ showErr e
+      | .panic p => "encpanic " ++ showPanic p
+    | _, _, _ => "bad-case parse"
+  | [.atom "stream", st, .list ts, b] =>
+    match strict? st, ts.mapM ty?, bytes? b with
+    | some st, some ts, some bs => showOut
+        (fun r => "(" ++ " ".intercalate (r.1.map showVal) ++ ") rest=" ++ toString r.2.length)
+        (deserializeMany st ts bs)
+    | _, _, _ => "bad-case parse"
   | _ => "bad-case op"
 
 partial def loop (h : IO.FS.Stream) (out : IO.FS.Stream) : IO Unit := do
